@@ -27,6 +27,8 @@ def run(chk, tier):
     from ..rules import sibs as _SB
     _SB.check(chk, db, ['_set/', '_flat_set/'])      # SIB: cv/ref-qualified overloads of one member agree
     _SB.positive_control(chk)
+    from ..rules import iters as _ITE
+    _ITE.erase_count_area(chk, db, ['_set/', '_flat_set/'])      # ERASECNT: erase / erase_if return the number of erased elements
     from ..rules import initform as _IF
     _IF.check(chk, db, ['_set/', '_flat_set/'])      # INITFORM: emplace direct-non-list-initialises the key
     totals = {}
